@@ -85,8 +85,11 @@ class SimulatesSamples(work.Sampler, metaclass=abc.ABCMeta):
         for param_resolver in study.to_resolvers(params):
             records = {}
             if repetitions == 0:
+                instances: dict[str, int] = {}
                 for _, op, _ in program.findall_operations_with_gate_type(ops.MeasurementGate):
-                    records[protocols.measurement_key_name(op)] = np.empty([0, 1, 1])
+                    key = protocols.measurement_key_name(op)
+                    instances[key] = instances.get(key, 0) + 1
+                    records[key] = np.empty([0, instances[key], len(op.qubits)], dtype=np.uint8)
             else:
                 records = self._run(
                     circuit=program, param_resolver=param_resolver, repetitions=repetitions
